@@ -5,7 +5,7 @@ LEVEL = "proof"
 RULE_TEXT = ("C13-G: obligations over the crate graph and crate attributes of the default-feature build of the "
              "library (rustc facts): #![no_std] in force, no `extern crate alloc|std`, neither alloc nor std among "
              "the loaded crates, every MIR call and every local type names only crates of that graph, build succeeds. "
-             "C13-S (thorough): with feature std, bodies shared with the no_std build call nothing in alloc/std and "
+             "C13-S: with feature std, bodies shared with the no_std build call nothing in alloc/std and "
              "hold no alloc-typed local; allocation is confined to bodies that exist only under the std feature.")
 
 ALLOC_CRATES = {"alloc", "std"}
@@ -73,7 +73,7 @@ def run(ck):
     elif not failures:
         ck.bad("C13-W", "witness:build", "no facts for the no_std witness crate")
 
-    if ck.tier == "thorough":
+    if True:      # both tiers: the std and defmt configurations cost one extraction each
         std = ctx.lib(ck, "std")
         if std is None:
             return
